@@ -425,14 +425,28 @@ func brief(l []any) []string {
 	return out
 }
 
-// protoDiff compares two messages of the same type field by field; returns the path (field names,
-// no indices) and a description of the first difference, "" when equal. Unknown fields are compared
-// as raw bytes.
-func protoDiff(a, b proto.Message) (string, string) {
-	return msgDiff(a.ProtoReflect(), b.ProtoReflect(), "")
+// pdiff is one difference between two messages: the path (field names, no indices) and a description.
+type pdiff struct{ path, detail string }
+
+// protoDiffAll compares two messages of the same type field by field and returns every difference
+// (one per differing member; a list whose lengths differ is reported once and not descended into).
+// Unknown fields are compared as raw bytes. A differing default_value carries the field's type in
+// its path (default_value[TYPE_FLOAT]) so that different kinds of default are different classes.
+func protoDiffAll(a, b proto.Message) []pdiff {
+	var acc []pdiff
+	msgDiff(a.ProtoReflect(), b.ProtoReflect(), "", &acc)
+	return acc
 }
 
-func msgDiff(a, b protoreflect.Message, path string) (string, string) {
+// protoDiff returns the first difference, "" when equal.
+func protoDiff(a, b proto.Message) (string, string) {
+	if ds := protoDiffAll(a, b); len(ds) > 0 {
+		return ds[0].path, ds[0].detail
+	}
+	return "", ""
+}
+
+func msgDiff(a, b protoreflect.Message, path string, acc *[]pdiff) {
 	fields := a.Descriptor().Fields()
 	for i := 0; i < fields.Len(); i++ {
 		fd := fields.Get(i)
@@ -442,7 +456,8 @@ func msgDiff(a, b protoreflect.Message, path string) (string, string) {
 		}
 		ha, hb := a.Has(fd), b.Has(fd)
 		if ha != hb {
-			return p, fmt.Sprintf("%s: stable %s, experimental %s (%s)", p, present(a, fd), present(b, fd), ident(a))
+			*acc = append(*acc, pdiff{p, fmt.Sprintf("%s: stable %s, experimental %s (%s)", p, present(a, fd), present(b, fd), ident(a))})
+			continue
 		}
 		if !ha {
 			continue
@@ -452,46 +467,47 @@ func msgDiff(a, b protoreflect.Message, path string) (string, string) {
 		case fd.IsList():
 			la, lb := va.List(), vb.List()
 			if la.Len() != lb.Len() {
-				return p + ".#", fmt.Sprintf("%s: stable has %d entries, experimental %d (%s)", p, la.Len(), lb.Len(), ident(a))
+				*acc = append(*acc, pdiff{p + ".#", fmt.Sprintf("%s: stable has %d entries, experimental %d (%s)", p, la.Len(), lb.Len(), ident(a))})
+				continue
 			}
 			for j := 0; j < la.Len(); j++ {
-				if dp, d := valDiff(fd, la.Get(j), lb.Get(j), p, a); dp != "" {
-					return dp, d
-				}
+				valDiff(fd, la.Get(j), lb.Get(j), p, a, acc)
 			}
 		case fd.IsMap():
 			// descriptor.proto has no map fields
 		default:
-			if dp, d := valDiff(fd, va, vb, p, a); dp != "" {
-				return dp, d
-			}
+			valDiff(fd, va, vb, p, a, acc)
 		}
 	}
 	if !bytes.Equal(a.GetUnknown(), b.GetUnknown()) {
-		return path + ".(unknown)", fmt.Sprintf("%s: unknown fields differ: stable %x experimental %x", path, []byte(a.GetUnknown()), []byte(b.GetUnknown()))
+		*acc = append(*acc, pdiff{path + ".(unknown)", fmt.Sprintf("%s: unknown fields differ: stable %x experimental %x", path, []byte(a.GetUnknown()), []byte(b.GetUnknown()))})
 	}
-	return "", ""
 }
 
-func valDiff(fd protoreflect.FieldDescriptor, va, vb protoreflect.Value, p string, parent protoreflect.Message) (string, string) {
+func valDiff(fd protoreflect.FieldDescriptor, va, vb protoreflect.Value, p string, parent protoreflect.Message, acc *[]pdiff) {
 	if fd.Message() != nil {
-		// options messages: compare by deterministic encoding (known vs unknown storage of
+		// options messages: compare by canonical wire form (known vs unknown storage of
 		// extension values must not matter)
 		if strings.HasSuffix(string(fd.Message().Name()), "Options") {
 			ca, cb := canonWire(va.Message().Interface()), canonWire(vb.Message().Interface())
 			if ca != cb {
-				return p, fmt.Sprintf("%s: stable {%s} = %s, experimental {%s} = %s (%s)", p,
+				*acc = append(*acc, pdiff{p, fmt.Sprintf("%s: stable {%s} = %s, experimental {%s} = %s (%s)", p,
 					prototext.MarshalOptions{}.Format(va.Message().Interface()), ca,
-					prototext.MarshalOptions{}.Format(vb.Message().Interface()), cb, ident(parent))
+					prototext.MarshalOptions{}.Format(vb.Message().Interface()), cb, ident(parent))})
 			}
-			return "", ""
+			return
 		}
-		return msgDiff(va.Message(), vb.Message(), p)
+		msgDiff(va.Message(), vb.Message(), p, acc)
+		return
 	}
 	if !va.Equal(vb) {
-		return p, fmt.Sprintf("%s: stable %v, experimental %v (%s)", p, fmtVal(fd, va), fmtVal(fd, vb), ident(parent))
+		if fd.Name() == "default_value" {
+			if tf := parent.Descriptor().Fields().ByName("type"); tf != nil && tf.Enum() != nil {
+				p += "[" + fmtVal(tf, parent.Get(tf)) + "]"
+			}
+		}
+		*acc = append(*acc, pdiff{p, fmt.Sprintf("%s: stable %v, experimental %v (%s)", p, fmtVal(fd, va), fmtVal(fd, vb), ident(parent))})
 	}
-	return "", ""
 }
 
 // canonWire is the wire form of an options message as a list of (field number, wire type, value
